@@ -20,7 +20,11 @@ Damage catalogue (each with all other shares intact AND with exactly k-1 other s
      signature under the genuine pubkey, v2 prefix+signature+hashes over v1's blocks, v1's body
      under v2's prefix+signature, missing};
  (e) truncation of the share data at every length (container consistent) and of the file itself;
- (f) a share number stored TWICE (home server + a fourth server), every pair of 9 x 8 states.
+ (f) a share number stored TWICE (home server + a fourth server), every pair of 9 x 8 states;
+ (g) two cooperating servers (single-segment SDMF and MDMF): share A's hash chain plants "leaf of share B = X"
+     before contradicting the signed root, share B carries a changed block whose (recomputed) block hash tree
+     root is X and a chain that only repeats that leaf - every ordered pair (A, B), the third share intact,
+     also with a second intact copy of A's / B's share number on a fourth server.
 Oracle: the result is content(v1), content(v2) or an error - never other bytes - and exactly
 content(v2) whenever >= k untouched v2 shares are present; the read terminates.
 """
@@ -164,6 +168,33 @@ def build(prep, sh, spec):
         new = ms.resign(d2, prep["attacker"], seqnum=3)
     elif op == "badsig-newer":
         new = ms.resign(d2, prep["attacker"], seqnum=3, swap_key=False)
+    elif op in ("plant-block", "plant-chain"):
+        # two servers cooperate (no key needed): `plant-block` = this share with a changed block, a block hash
+        # tree recomputed over it (root X) and a share hash chain that only repeats "my leaf = X";
+        # `plant-chain` (spec[1] = the other share) = this share with a share hash chain that first names
+        # "leaf of the other share = X" and then contradicts the signed root (so this share is rejected).
+        # Nothing ties X to the signed root: both must be rejected.
+        from allmydata.util import hashutil as _hu
+        target = sh if op == "plant-block" else spec[1]
+        dt = ms.share_data(prep["v2"][target])
+        ft = ms.fields(dt)
+        if "block1" in ft or (ft["block_hash_tree"][1] - ft["block_hash_tree"][0]) != 32 or "block0" not in ft:
+            return "skip"            # single-segment files only (one-leaf block hash tree)
+        nb = ms.flip(dt, ft["block0"][0], 0x01)[ft["block0"][0]:ft["block0"][1]]
+        X = _hu.block_hash((dt[ft["salt0"][0]:ft["salt0"][1]] + nb) if dt[0] == 1 else nb)
+        leaf = (1 << (N - 1).bit_length()) - 1 + target
+        entry = leaf.to_bytes(2, "big") + X
+        a, b = f["share_hash_chain"]
+        nent = (b - a) // 34
+        if op == "plant-block":
+            new = ms.put(d2, f["block0"], nb)
+            new = ms.put(new, f["block_hash_tree"], X)
+            new = ms.put(new, (a, b), entry * nent)
+        else:
+            junk = (0).to_bytes(2, "big") + b"\x5a" * 32
+            if nent < 2:
+                return "skip"
+            new = ms.put(d2, (a, b), entry + junk * (nent - 1))
     elif op == "v2prefix-v1blocks":
         f1 = ms.fields(d1)
         if f1["share_data"][1] - f1["share_data"][0] != f["share_data"][1] - f["share_data"][0]:
@@ -496,6 +527,21 @@ def subst_cases(fkey, caps, warm_too):
     return out
 
 
+def plant_cases(fkey, caps):
+    """every ordered pair (A, B) of shares: A carries a chain planting a leaf for B, B carries the matching forged
+    block; the third share is intact, or missing with a second intact copy of A/B's numbers elsewhere"""
+    out = []
+    for a_, b_ in itertools.permutations(range(N), 2):
+        for cap in caps:
+            slots = {str(sh): ["v2"] for sh in range(N)}
+            slots[str(a_)] = ["plant-chain", b_]
+            slots[str(b_)] = ["plant-block"]
+            out.append({"fkey": fkey, "cap": cap, "warm": False, "ranged": False, "cls": "plant", "slots": slots})
+            out.append({"fkey": fkey, "cap": cap, "warm": False, "ranged": False, "cls": "plant", "slots": slots, "dup": [a_, ["v2"]]})
+            out.append({"fkey": fkey, "cap": cap, "warm": False, "ranged": False, "cls": "plant", "slots": slots, "dup": [b_, ["v2"]]})
+    return out
+
+
 def dup_cases(fkey, seed, caps):
     """a share number stored twice (home server + a 4th server), each copy in one of several states"""
     prep = prepare(fkey, seed)
@@ -583,6 +629,8 @@ def run(tier, seed):
             cases += [c for c in subst_cases(fkey, ["rw"], warm_too=True) if c["warm"]]
             cases += [dict(c, cpu="async", ranged=False) for c in subst_cases(fkey, ["ro"], warm_too=False)]
             cases += dup_cases(fkey, seed, ["ro"])
+        for fkey in ("SDMF", "MDMF1"):
+            cases += plant_cases(fkey, ["ro"])
     else:
         for fkey in ("SDMF", "MDMF", "MDMF1"):
             caps = ["ro", "rw"] if fkey != "MDMF1" else ["ro"]
@@ -593,8 +641,9 @@ def run(tier, seed):
             cases += subst_cases(fkey, caps, warm_too=True)
             cases += [dict(c, cpu="async") for c in subst_cases(fkey, ["ro"], warm_too=False) + field_cases(fkey, seed, ["ro"], [0, 1, 2], ["intact", "needed"], warm_too=False)]
             cases += dup_cases(fkey, seed, caps) + [dict(c, cpu="async") for c in dup_cases(fkey, seed, ["ro"])]
+            cases += plant_cases(fkey, caps) + [dict(c, cpu="async") for c in plant_cases(fkey, ["ro"])]
     # several answers per reactor turn (grid.Sched.batch): the substitution, field and duplicate cases again
-    cases += [dict(c, batch=True) for c in cases if c.get("cls") in ("subst", "field", "dup") or "dup" in c][:: (2 if tier == "quick" else 1)]
+    cases += [dict(c, batch=True) for c in cases if c.get("cls") in ("subst", "field", "dup", "plant") or "dup" in c][:: (2 if tier == "quick" else 1)]
     # a flip in "needed" mode with other == victim is meaningless
     cases = [c for c in cases if sum(1 for s in c["slots"].values() if s[0] != "missing") >= 1]
     for fkey in sorted(set(c["fkey"] for c in cases)):
